@@ -11,6 +11,7 @@
 -/
 import TT.Run
 import TT.RunAnalysis
+import TT.Options
 namespace TT
 open Tree
 
@@ -51,5 +52,49 @@ def runTransitionsSrc (steps : List Step) (sys : TransSys) (pos : Bool) (io : In
 def runGrammarSrc (gt : GramType) (mo : Option MarkovOpts) (io : InOpts) (src : Source) :
     Except Err (Grammar × Lexicon) :=
   runGrammarFrom gt mo (readSrc io src)
+
+/-! ### `--src-opts`: from the words of the command line to the reader's options
+
+`**misc.options_dict(args.src_opts)` hands the dict to the reader as keyword arguments.  The readers test the PRESENCE of
+the keys `gf_split`, `replace_parens`, `continuous`, `brackets_emptypos`, `disco_reordered` (and `quiet`, which only
+concerns messages) - whatever the value, so `gf_split:0` switches the option ON; `disco` must be present and truthy;
+`gf_separator` is used as it is and `brackets_firstid` as the first sentence number.  Values of a kind the readers cannot
+use (a number or a bare key as separator, a non-number as first id) are outside the model (`none`); the harness does
+not generate them. -/
+
+def optTruthy : OptVal → Bool
+  | .flag => true
+  | .int n => n != 0
+  | .str s => !s.isEmpty
+
+def inOptsOf (d : List (Str × OptVal)) : Option InOpts :=
+  let has := fun (k : String) => (optLookup d k.toList).isSome
+  let sep : Option (Option Str) := match optLookup d "gf_separator".toList with
+    | none => some none
+    | some (.str s) => some (some s)
+    | some _ => none
+  let fid : Option (Option Nat) := match optLookup d "brackets_firstid".toList with
+    | none => some none
+    | some (.int n) => some (some n)
+    | some _ => none
+  match sep, fid with
+  | some sep, some fid =>
+    some { gfSplit := has "gf_split", gfSeparator := sep, replaceParens := has "replace_parens",
+           emptyPos := has "brackets_emptypos", firstId := fid, continuous := has "continuous",
+           disco := (optLookup d "disco".toList).any optTruthy, discoReordered := has "disco_reordered" }
+  | _, _ => none
+
+/-- the reader named by the format on the content of the file, with the words of `--src-opts` -/
+def readSrcWords (words : List Str) (src : Source) : Option (Except Err (List (Nat × Tree))) :=
+  (inOptsOf (optionsDict words)).map fun io => readSrc io src
+
+/-- `treetools treeanalysis SRC TASK --src-format F --src-opts words...` -/
+def runAnalysisWords (task : AnalysisTask) (words : List Str) (src : Source) : Option (Except Err AnalysisReport) :=
+  (readSrcWords words src).map (runAnalysisFrom task)
+
+/-- `treetools transform SRC DEST --src-format F --src-opts words... --trans ...` -/
+def runWords (steps : List Step) (fmt : DestFmt) (o : OutOpts) (enc : Option Str) (words : List Str) (src : Source) :
+    Option (Except Err Str) :=
+  (readSrcWords words src).map (runFrom steps fmt o enc)
 
 end TT
